@@ -300,11 +300,16 @@ Definition aes_history (patched : bool) (docs : list bool) : bool := fold_left a
      OnEncrypted  additionally for every document that opens and says it is encrypted;
      Eager        before every open.
    AES-128 (AESV2) files open without touching AES and need the provider only later, during
-   decryption, where nothing installs it. *)
-Inductive aes_install := Lazy | OnEncrypted | Eager.
+   decryption, where nothing installs it.
+     AtImport     once, when pdf_extractor is imported; extractions never touch the provider again.
+   (continued) *)
+Inductive aes_install := Lazy | OnEncrypted | Eager | AtImport.
 Inductive pdf_kind := PlainPdf | AesAtOpen | AesLate.
+(* state of the provider when the library's modules have been imported and nothing was extracted *)
+Definition aes_initial (m : aes_install) : bool := match m with AtImport => true | _ => false end.
 Definition aes_open (m : aes_install) (patched : bool) (k : pdf_kind) : bool :=
   match m, k with
+  | AtImport, _ => patched
   | Eager, _ => true
   | _, AesAtOpen => true
   | OnEncrypted, AesLate => true
